@@ -85,7 +85,7 @@ def runErrvis (c : Case) : Res :=
   let nerr := ((kv? c.header "nerr").bind (·.toNat?)).getD 0
   let nsec := ((kv? c.header "secs").bind (·.toNat?)).getD 0
   -- for C08 the case matters when a rejected security stands next to a healthy one
-  let tags := [if nerr ≥ 1 && nsec > nerr then "nt=C04,C08" else "nt=C04",
+  let tags := [if nerr ≥ 1 && nsec > nerr then "nt=C01,C03,C04,C08" else "nt=C01,C03,C04",
                s!"secs={(kv? c.header "secs").getD "?"}", s!"nerr={(kv? c.header "nerr").getD "?"}"]
   if c.lines.any (fun l => l.head? == some "impl" && l[1]? == some "panic") then
     { verdict := "DIFF", tags := "dk=panic" :: tags,
@@ -120,6 +120,12 @@ def runErrvis (c : Case) : Res :=
       else match num l with
         | some g => if close g 0 then none else some s!"aggregate {key}: {Acb.ratToString g} shown although no completed security has a gain in that year"
         | none => none)
+    -- the render model shows the ledger's own figures (C01/C03: what is reported is what was computed)
+    let rmis := (c.lines.filter (fun l => l.head? == some "rmis")).map (fun l =>
+      s!"security {l[1]?.getD "?"} row {l[2]?.getD "?"}: the report's {l[3]?.getD "?"} cell differs from the ledger ({String.intercalate " " (l.drop 4)})")
+    match rmis with
+    | m :: _ => { verdict := "ORACLE", tags := "of=C01,C03,C04" :: tags, msg := m }
+    | [] =>
     match badVis ++ badAgg ++ extraAgg with
     | [] => { verdict := "ok", tags := tags }
     | m :: _ =>
